@@ -803,7 +803,9 @@ def corpus():
 
 
 def EXHAUSTIVE(tier):
-    return tier == "thorough"
+    # parts (field table, palette sweep, outcome vectors) are enumerated completely, the
+    # inheritance chains are drawn at random: not an exhaustive run as a whole
+    return False
 
 
 def distribution(cases):
